@@ -218,11 +218,11 @@ fn rule(id: &str) -> &'static str {
     match id {
         "C01" => "(a) all scheduler-owned interleavings of small batches of overlapping AddVersion requests (a new client's first requests included; memory / one SQLite object / one SQLite object per request; handlers and library), the chain walked afterwards against the set of acknowledged versions; (b) generated multi-client histories (all id classes, nil/non-nil base, snapshots, reopen) on memory+SQLite via library and HTTP; the chain of every client is walked through GetChildVersion against the log of acknowledged versions. Non-trivial: walked client has >=2 versions and the history holds a rejected AddVersion or an AddSnapshot; distinct by (per-op client, outcome class) shape, base kind, reopen count.",
         "C02" => "every AddVersion of generated histories is compared with the compare-and-append rule, id freshness, stored parent/payload, counter +1 iff snapshot; rejections with full-state dump before/after. Non-trivial: a real rejection (parent class not latest on a non-empty chain) or an accept on a client holding a snapshot; distinct by (state class, parent class, chain length bucket).",
-        "C07" => "after every op of a generated history every acknowledged version of every client is re-read through GetChildVersion(parent). Non-trivial: a re-read after a later op; distinct by (version position, chain length bucket, class of the later op, snapshot present).",
+        "C07" => "(a) two clients' overlapping requests under all scheduler-owned interleavings (lock probes included): each client is answered as on its own and every acknowledged version is served unaltered afterwards; (b) after every op of a generated history every acknowledged version of every client is re-read through GetChildVersion(parent). Non-trivial: a re-read after a later op; distinct by (version position, chain length bucket, class of the later op, snapshot present).",
         "C08" => "every AddVersion(p) of generated histories is preceded by GetChildVersion(p) on the same state and the pair is checked against the found / not-found<=>accept / gone<=>reject relation and the model; plus the complete small-scope table (chain 0..6, and the registered-but-empty client, x base kind x snapshot position x p class x library/HTTP x small/300 KB body). Non-trivial: probe on a non-empty chain with p not the latest; distinct by (state class, p class).",
         "C10" => "complete small-scope enumeration (chain 0..9 x nil/non-nil base x every reachable snapshot position incl. base corner x every v class incl. each position, nil, base, fresh, foreign; both backends) plus AddSnapshot ops in long random histories; after each AddSnapshot storage must show a clean replacement exactly when the window rule holds, else be untouched (full dump). Non-trivial: v is 5th/6th most recent, or a snapshot exists and v differs from it, or v is foreign/base; distinct by (n, base kind, snapshot position, v class, v position).",
         "C11" => "(a) all scheduler-owned interleavings (gate before every storage call) of AddSnapshot overlapping GetSnapshot and AddVersion on memory / one SQLite object / one SQLite object per request, via HTTP handlers and library: every GetSnapshot answer is the id and bytes of one upload, never an error, and the snapshot left behind is a usable base; (b) histories dense in AddVersion/AddSnapshot; GetSnapshot after every op must equal the most recently accepted upload (id and bytes from the same upload); after accepted snapshots and at the end the chain is walked from the snapshot version to the latest. Non-trivial: a walk of >=1 step after >=2 accepted snapshots or after a declined AddSnapshot; distinct by (chain length, walk length, accepted count, base kind).",
-        "C18" => "full state dump (raw SQL for SQLite, storage API over all known ids for memory) before and after every GetChildVersion, GetSnapshot, conflicting AddVersion and declined AddSnapshot of generated histories. Non-trivial: the op's client holds a snapshot or >=2 clients hold data; distinct by (op/outcome, state class, holders, chain length bucket).",
+        "C18" => "(a) the request grammar of C15 (malformed ids, media types, bodies, broken transfers, unknown routes and methods, conflicts, reads) against servers holding state: whatever is not answered with a success, and every read, must leave the full dump unchanged; (b) full state dump (raw SQL for SQLite, storage API over all known ids for memory) before and after every GetChildVersion, GetSnapshot, conflicting AddVersion and declined AddSnapshot of generated histories. Non-trivial: the op's client holds a snapshot or >=2 clients hold data; distinct by (op/outcome, state class, holders, chain length bucket).",
         _ => "",
     }
 }
@@ -278,6 +278,14 @@ pub fn run(id: &str, tier: Tier, seed: u64) -> Report {
         }
     }
 
+    if id == "C07" {
+        // "regardless of ... other clients' activity": also when that activity overlaps in time
+        crate::props::conc::two_clients_subrun("C07", &mut rep, tier);
+        if rep.failed() {
+            return rep;
+        }
+    }
+
     if id == "C01" || id == "C11" {
         // long chains (hundreds of versions, past every one-byte counter), walked at the end
         let n = tier.pick(300usize, 1500);
@@ -309,6 +317,14 @@ pub fn run(id: &str, tier: Tier, seed: u64) -> Report {
         }
     }
 
+    if id == "C18" {
+        // "any refused request": the request grammar of C15/C20 with C18's own oracle
+        crate::props::http::c18_raw_subrun(&mut rep, tier, seed);
+        if rep.failed() {
+            return rep;
+        }
+    }
+
     let p = params(id, tier);
     let total: u64 = match id {
         "C07" => tier.pick(6000, 60_000),
@@ -328,6 +344,8 @@ pub fn replay(id: &str, kind: &str, case: &Value, st: &mut Stats) -> CheckResult
         }
         "overlap" if id == "C11" => crate::props::conc::c11_replay(case, st),
         "overlap" if id == "C01" => crate::props::conc::c01_replay(case, st),
+        "raw" if id == "C18" => crate::props::http::c18_raw_replay(case, st),
+        "two-clients" if id == "C07" => crate::props::conc::two_clients_replay(case, st),
         _ => Err(Fail::Inconclusive(format!("unknown replay kind {kind}"))),
     }
 }
